@@ -154,6 +154,9 @@ def run(tier, out):
                     continue
                 else:
                     cases = invalid_values(ns, cls, p, default, rng)
+                if p == "server_type" and cname in ("Server", "GPUServer", "BoaviztaCloudServer"):
+                    # a value that is allowed in itself but not together with the fixed number of instances already set
+                    cases.append(("incompatible-with-the-fixed-count", ns.SourceObject("autoscaling")))
                 for what, bad in cases:
                     per_class[cname] = per_class.get(cname, 0) + 1
                     # 1. construction
@@ -163,6 +166,9 @@ def run(tier, out):
                         kw["server_type"] = ns.ServerTypes.autoscaling() if what == "conditional-value-not-allowed" \
                             else ns.ServerTypes.on_premise()
                     before = state_of(ns, {k: v for k, v in ctx.items() if v is not None})
+                    if what == "incompatible-with-the-fixed-count":
+                        bad = ns.SourceObject("autoscaling")        # a fresh value object for each attempt
+                        kw["fixed_nb_of_instances"] = ns.SourceValue(1000 * ns.u.dimensionless)
                     kw[p] = bad
                     exc = "none"
                     try:
@@ -198,6 +204,10 @@ def run(tier, out):
                             wanted = "autoscaling" if what == "conditional-value-not-allowed" else "on-premise"
                             if target.server_type.value != wanted:
                                 target.server_type = ns.SourceObject(wanted)
+                        if what == "incompatible-with-the-fixed-count":
+                            bad = ns.SourceObject("autoscaling")
+                            target.server_type = ns.SourceObject("on-premise")
+                            target.fixed_nb_of_instances = ns.SourceValue(1000 * ns.u.dimensionless)
                         before = state_of(ns, objs)
                         exc = "none"
                         try:
